@@ -89,6 +89,15 @@ func (a *AliasMangler) Mangle(sf reflect.StructField) ([]reflect.StructField, er
 		setAliases = append(setAliases, tag+"="+originalVals[tag])
 	}
 
+	// a name the copy has no alias for must not be inherited from the
+	// original field: both copies would answer to the same name (and a
+	// shorthand would be registered twice).
+	for _, tag := range a.tags {
+		if _, aliased := aliasVals[tag]; !aliased {
+			tags.Delete(tag)
+		}
+	}
+
 	newDialsDesc := "base dialsdesc unset" // be pessimistic in case dialsdesc isn't set
 	if desc, getErr := tags.Get(common.DialsHelpTextTag); getErr == nil {
 		newDialsDesc = desc.Name
